@@ -1941,3 +1941,12 @@ mut(
     '        fk_val: str = _param["doc"][len("[FK(") : end - len(")]")]\n',
     '        fk_val: str = _param["doc"][: end - len(")]")].lstrip("[FK(")\n',
 )
+mut(
+    "c02-default-membership-in-a-frozenset-again",
+    "C02",
+    "C02.hashable",
+    "cdd/shared/docstring_parsers.py",
+    '    was_none = was.get("default") in (cdd.shared.ast_utils.NoneStr, "None")\n',
+    '    was_none = was.get("default") in frozenset((cdd.shared.ast_utils.NoneStr, "None"))\n',
+    mention=("unhashable",),
+)
